@@ -228,6 +228,10 @@ class Program:
             return _ModuleNS({k: getattr(re, k) for k in ("compile", "sub", "match", "fullmatch", "search", "escape", "split", "findall")})
         if root == "dataclasses":
             return _ModuleNS({"dataclass": NoOp("dataclass"), "field": "dataclasses.field"})
+        if root == "math":
+            import math as _math
+
+            return _ModuleNS({k: getattr(_math, k) for k in ("isnan", "isinf", "isfinite", "floor", "ceil", "inf", "nan", "log", "sqrt")})
         if root in ("warnings", "logging"):
             return _ModuleNS({"warn": NoOp("warn")})
         raise KeyError(root)
